@@ -169,7 +169,7 @@ var checks = map[string]Check{
 	},
 	"C03": {
 		Level:       "model_checking",
-		Rule:        "a scripted raw peer sends every frame of the alphabet {type byte x route x body x codec id x metadata} to a real server for every plugin veto stage and with/without unknown-handlers, then a probe call; all non-preemptive schedules (bound 0) for single frames, all interleavings up to the bound for every pair of back-to-back frames (same/different seq, blocking/panicking/erroring handlers); the oracle parses the server's wire output with an independent frame parser",
+		Rule:        "a scripted raw peer sends every frame of the alphabet {type byte x route x body x codec id x metadata} to a real server for every plugin veto stage and with/without unknown-handlers, then a probe call; all non-preemptive schedules (bound 0) for single frames, all interleavings up to the bound for every pair of back-to-back frames (same/different seq, blocking/panicking/erroring handlers); the oracle parses the server's wire output with an independent frame parser (raw protocol); the same alphabet and pairs also through the json, pb, thrift-binary and http protocols (frames built and parsed with the protocol's own Pack/Unpack, whose round trip is checked under C05)",
 		Assumptions: baseAssumptions,
 		Jobs: func(tier string) []Job {
 			var js []Job
@@ -186,6 +186,20 @@ var checks = map[string]Check{
 				js = append(js, sched("c03_pair", "", 2, 16))
 			} else {
 				js = append(js, sched("c03_pair", "", 1, 4))
+			}
+			// the same alphabet and pairs through the other protocols (frames built with the protocol's own Pack;
+			// frames a protocol cannot carry are counted as not representable)
+			for _, pr := range []string{"json", "pb", "thrift", "http"} {
+				for _, u := range []string{"0", "1"} {
+					js = append(js, sched("c03_frames", "veto=none,unknown="+u+",proto="+pr, b, 1+3*b))
+				}
+				pj := sched("c03_pair", "proto="+pr, 1, 2)
+				if tier == "thorough" {
+					pj.Bound = 2
+					pj.Shards = 8
+					pj.Budget = 300
+				}
+				js = append(js, pj)
 			}
 			return js
 		},
